@@ -48,6 +48,7 @@ package bitswap
 //@   property C10
 //@   requires h != nil && !$Verified
 //@   modifies h
+//@   havoc $Verified
 //@   param .UnmarshalFn: ensures $result == nil ==> $Verified
 //@   param .UnmarshalFn: ensures $result != nil ==> !$Verified
 //@   ensures err == nil ==> $Verified
@@ -58,6 +59,7 @@ package bitswap
 //@   property C10
 //@   requires h != nil && !$Verified
 //@   modifies h
+//@   havoc $Verified
 //@   ensures err == nil ==> $Verified && result0 == len(data)
 //@   ensures err != nil ==> result0 == 0 && h.sum == old(h.sum)
 
